@@ -47,15 +47,24 @@ _X_CONDS = {2, 3, 6, 10, 11, 12}
 _X_EFFS = {7, 10, 14, 15}
 
 
+def _uses_x(sk):
+    """per action of the skeleton: does any of its templates mention the action parameter?"""
+    specs = [(sk.get("pre", []), sk["effs"], sk.get("effcond", 2))]
+    if sk.get("second_action"):
+        specs.append((sk.get("pre2", []), sk["second_action"], sk.get("effcond2", 0)))
+    return [bool(set(pre) & _X_CONDS) or bool(set(effs) & _X_EFFS) or (bool(set(effs) & {1, 5, 9, 14, 16}) and ec in _X_CONDS)
+            for pre, effs, ec in specs]
+
+
+def _n_instances(sk):
+    return sum(2 if u else 1 for u in _uses_x(sk))
+
+
 def _instances(g, sk):
     """ground instances; when no template of an action mentions its parameter only (action, o1) is kept"""
     out = []
-    specs = [(g.a, sk.get("pre", []), sk["effs"], sk.get("effcond", 2))]
-    if sk.get("second_action"):
-        specs.append((g.a2, sk.get("pre2", []), sk["second_action"], sk.get("effcond2", 0)))
-    for a, pre, effs, ec in specs:
-        uses_x = bool(set(pre) & _X_CONDS) or bool(set(effs) & _X_EFFS) or (bool(set(effs) & {1, 5, 9, 14, 16}) and ec in _X_CONDS)
-        for o in (g.objs if uses_x else g.objs[:1]):
+    for a, uses_x in zip(g.actions, _uses_x(sk)):
+        for o in (g.objs[:2] if uses_x else g.objs[:1]):
             out.append((a, o))
     return out
 
@@ -202,10 +211,10 @@ def shards(tier, seed):
                 # every residue class of every start time (choice variables) for plans of length <= 2 ...
                 out.append(dict(name=f"{tag}-len0to2-anyres", fn="h_agree", kwargs=dict(sk=skd, min_len=0, max_len=2, res=None),
                                 budget=1500, per_path=60))
-                # ... and two fixed residue patterns for length 3 (6 order types each)
-                for k, res in enumerate((_RES[0], _RES[1])):
-                    out.append(dict(name=f"{tag}-len3-res{k}", fn="h_agree", kwargs=dict(sk=skd, min_len=3, max_len=3, res=res),
-                                    budget=1500, per_path=60))
+                # ... and length 3 (6 order types) cut by the first step, one fixed residue pattern per shard
+                for f in range(_n_instances(skd)):
+                    out.append(dict(name=f"{tag}-len3-first{f}", fn="h_agree",
+                                    kwargs=dict(sk=skd, min_len=3, max_len=3, res=_RES[(i + f) % len(_RES)], first=f), budget=1500, per_path=60))
     return out
 
 
